@@ -10,14 +10,34 @@ package gem
 //@   ensures result == 0 ==> a == b                       [C01]
 //@   ensures result == (a < b ? -1 : (a > b ? 1 : 0))     [C03 C13]
 
+// Gem::Version#<=> on one position: numbers as integers, strings alphabetically, a string below a number
 //@ func compareSegments
 //@   comparator a ~ b                                     [C01]
+//@   ensures numbers: a.isNumeric && b.isNumeric ==> result == (a.numValue < b.numValue ? -1 : (a.numValue > b.numValue ? 1 : 0))   [C13]
+//@   ensures string-below-number: !a.isNumeric && b.isNumeric ==> result == -1   [C13]
+//@   ensures number-above-string: a.isNumeric && !b.isNumeric ==> result == 1    [C13]
+//@   ensures strings: !a.isNumeric && !b.isNumeric ==> result == strings.Compare(a.value, b.value)   [C13]
 
+// position by position, a missing segment counting as the number 0; the first difference decides
+//@ spec segAt(s []segment, i int) segment = i < len(s) ? s[i] : mk(segment, "0", true, 0)
 //@ func compareSegmentArrays
 //@   comparator a ~ b                                     [C01]
+//@   ensures first-difference: forall k int :: 0 <= k && (k < len(a) || k < len(b)) && (forall j int :: 0 <= j && j < k ==> compareSegments(segAt(a, j), segAt(b, j)) == 0) && compareSegments(segAt(a, k), segAt(b, k)) != 0 ==> result == compareSegments(segAt(a, k), segAt(b, k))   [C13]
+//@   ensures all-equal: (forall j int :: 0 <= j && (j < len(a) || j < len(b)) ==> compareSegments(segAt(a, j), segAt(b, j)) == 0) ==> result == 0   [C13]
 
+// the pre-release part starts at the first letter segment and keeps everything after it
+//@ func (*Version).splitNumericAndPrerelease
+//@   ensures numeric-prefix: len(result0) <= len(v.segments) && (forall i int :: 0 <= i && i < len(result0) ==> result0[i] == v.segments[i] && v.segments[i].isNumeric)   [C13]
+//@   ensures rest: len(result0) + len(result1) == len(v.segments) && (forall i int :: 0 <= i && i < len(result1) ==> result1[i] == v.segments[len(result0) + i])   [C13]
+//@   ensures starts-with-letters: len(result1) > 0 ==> !result1[0].isNumeric   [C13]
+
+// release numbers first; then a version without a pre-release part is newer; then the pre-release parts
 //@ func (*Version).Compare
 //@   comparator v ~ other                                 [C01]
+//@   ensures numeric-first: compareSegmentArrays(v.splitNumericAndPrerelease().0, other.splitNumericAndPrerelease().0) != 0 ==> result == compareSegmentArrays(v.splitNumericAndPrerelease().0, other.splitNumericAndPrerelease().0)   [C13]
+//@   ensures release-above-prerelease: compareSegmentArrays(v.splitNumericAndPrerelease().0, other.splitNumericAndPrerelease().0) == 0 && len(v.splitNumericAndPrerelease().1) == 0 ==> result == (len(other.splitNumericAndPrerelease().1) == 0 ? 0 : 1)   [C13]
+//@   ensures prerelease-below-release: compareSegmentArrays(v.splitNumericAndPrerelease().0, other.splitNumericAndPrerelease().0) == 0 && len(v.splitNumericAndPrerelease().1) > 0 && len(other.splitNumericAndPrerelease().1) == 0 ==> result == -1   [C13]
+//@   ensures prerelease-parts: compareSegmentArrays(v.splitNumericAndPrerelease().0, other.splitNumericAndPrerelease().0) == 0 && len(v.splitNumericAndPrerelease().1) > 0 && len(other.splitNumericAndPrerelease().1) > 0 ==> result == compareSegmentArrays(v.splitNumericAndPrerelease().1, other.splitNumericAndPrerelease().1)   [C13]
 
 // ---- constructors: value xor error (C06); the fact is structural (untagged) because callers rely on it
 
